@@ -314,8 +314,14 @@ class Server:
             if len(pipeline) >= self._capacity:
                 if backpressure:
                     raise ServerBacklogFull(len(pipeline))
-                if not self._pipeline_notfull.wait(timeout * 0.99):
-                    raise ServerBacklogFull(len(pipeline), perf_counter() - t0)
+                deadline = t0 + timeout * 0.99
+                while len(pipeline) >= self._capacity:
+                    # Check again after each wake-up: the freed slot may have
+                    # been taken by another caller in the meantime.
+                    t = deadline - perf_counter()
+                    if t <= 0:
+                        raise ServerBacklogFull(len(pipeline), perf_counter() - t0)
+                    self._pipeline_notfull.wait(t)
 
             self._input_buffer.put((uid, x))
             pipeline[uid] = fut
